@@ -8,6 +8,7 @@ CONSTANTS Kind = "channel"
           Slot = 0
           SidOff = 0
           AsImplemented = FALSE
+          Frag = 0
           LibSource = FALSE
 INVARIANT NoClauseFails
 INVARIANT DeliveredIsPrefixOfHanded
